@@ -27,7 +27,7 @@ ASSUMPTIONS = [
 ]
 REQUIRED = {'mirror_checks': 8000, 'source_updates': 2000, 'overrides': 300, 'relinks': 300, 'nested_links': 200, 'leak_checks': 3000, 'triggers': 100,
             'same_reference_reassigned': 20, 'overrides_from_trigger_callback': 50, 'equal_comparing_source_cases': 40,
-            'targets_sharing_parameter_objects': 40, 'assignments_from_on_init_method': 100, 'arraylike_source_values': 100, 'overrides_from_sync_callback': 40}
+            'targets_sharing_parameter_objects': 40, 'assignments_from_on_init_method': 100, 'arraylike_source_values': 100, 'overrides_from_sync_callback': 40, 'falsy_source_cases': 30, 'source_side_observations': 1000}
 
 _st = {}
 _n = [0]
@@ -79,7 +79,12 @@ def setup(P):
         def __hash__(self):
             return 1
 
-    _st['Src'], _st['Tgt'], _st['EmptyTgt'], _st['EqSrc'] = Src, Tgt, EmptyTgt, EqSrc
+    class EmptySrc(Src):
+        """A container-like source that is currently empty: evaluates to False, still a perfectly good source."""
+        def __len__(self):
+            return 0
+
+    _st['Src'], _st['Tgt'], _st['EmptyTgt'], _st['EqSrc'], _st['EmptySrc'] = Src, Tgt, EmptyTgt, EqSrc, EmptySrc
 
 
 def case_reset(idx):
@@ -217,6 +222,9 @@ def run_case(idx, rng, P, rep):
     if rng.random() < 0.15:
         Src = _st['EqSrc']
         rep.count('equal_comparing_source_cases')
+    elif rng.random() < 0.15:
+        Src = _st['EmptySrc']
+        rep.count('falsy_source_cases')
     srcs = [Src(v=fresh(), w=fresh()) for _ in range(3)]
     shared_pobj = rng.random() < 0.15
     if shared_pobj:
@@ -282,6 +290,24 @@ def run_case(idx, rng, P, rep):
     steps = []
     flags = dict(multi=any(len(lk) >= 2 for lk in links), relink_then_update=False, pending=False)
     raised_last = set()      # (src index, pname) whose most recent assignment raised out of the setter
+    stale_seen = []
+
+    def observe(si_):
+        # an ordinary watcher of a source (there before any later link): when it runs, the parameters linked to what it is told
+        # about already hold the new resolved values
+        def cb(*evs):
+            for e in evs:
+                for tj_, lk_ in enumerate(links):
+                    for tp_, (ev_, kind_, deps_) in lk_.items():
+                        if (si_, e.name) not in deps_ or tp_ in unspec[tj_] or (deps_ & raised_last):
+                            continue
+                        exp_ = safe(ev_)
+                        rep.count('source_side_observations')
+                        if valid_for(tp_, exp_) and not same(getattr(targets[tj_], tp_), exp_):
+                            stale_seen.append((si_, e.name, tj_, tp_, kind_, repr(getattr(targets[tj_], tp_))[:60], repr(exp_)[:60]))
+        return cb
+    for si_, s_ in enumerate(srcs):
+        s_.param.watch(observe(si_), ['v', 'w', 'o'], onlychanged=False)
     murky = [set() for _ in range(ntg)]   # per target: source params a half-restored link may legitimately still watch
     unspec = [set() for _ in range(ntg)]  # per target: parameters whose link state is unspecified (restore raised) until re-assigned
 
@@ -357,6 +383,7 @@ def run_case(idx, rng, P, rep):
                 rep.count('arraylike_source_values')
             steps.append('source-update')
             trace.append(('source-update', si, pn, v))
+            del stale_seen[:]
             rep.count('source_updates')
             armed = None
             if rng.random() < 0.2:
@@ -398,6 +425,11 @@ def run_case(idx, rng, P, rep):
                         break
                     seen_once.add(dk)
                 rep.count('delivery_count_checks')
+                if stale_seen:
+                    x_ = stale_seen[0]
+                    viol('linked-value-stale/seen-by-a-watcher-of-the-source', f'while an ordinary watcher of source{x_[0]}.{x_[1]} ran, '
+                         f'target{x_[2]}.{x_[3]} (linked by {x_[4]}) still held {x_[5]}; its reference resolves to {x_[6]}')
+                    del stale_seen[:]
                 if not unchanged:
                     raised_last.discard((si, pn))
             except (ValueError, ZeroDivisionError) as e:
